@@ -27,7 +27,12 @@
 From OIDC Require Import Lib.
 
 Inductive router := Provider | Legacy.
-Inductive authm := AM_Basic | AM_Post | AM_None | AM_PKJWT.
+(* Client.AuthMethod(): the four values the library names, and AM_Other = ANY other string a
+   registration may carry ("" - unset, the default client_secret_basic -, client_secret_jwt,
+   tls_client_auth, case variants of the named values, ...).  Every decision of the library is
+   "private_key_jwt? / none? / client_secret_post and the post flag?" and otherwise the secret
+   check, so such a client is a confidential client that must present its secret. *)
+Inductive authm := AM_Basic | AM_Post | AM_Other | AM_None | AM_PKJWT.
 
 Record client := {
   c_id : string; c_secret : string; c_auth : authm;
@@ -192,7 +197,10 @@ Inductive op :=
 | Callback (req : nat)
 | TokenCode (pl : place) (f : option smethod) (c : cred) (code : option nat) (uri ver : string)
 | TokenRefresh (pl : place) (c : cred) (rt : option nat) (scopes : list string)
-| DropRefresh (client : string).     (* test side: the client's registration loses the refresh_token grant *)
+| DropRefresh (client : string)      (* test side: the client's registration loses the refresh_token grant *)
+| RevokeRT (rt : nat).               (* storage side: refresh token rt is revoked / expires: from now on
+                                        Storage.TokenRequestByRefreshToken refuses it (with an error - whatever
+                                        else it returns next to the error) *)
 
 Record tokresp := {
   t_at : nat; t_at_sub : string;
@@ -297,6 +305,7 @@ Definition assertion_client (v : option string) : client + string :=
 (* secret-based part shared by AuthorizeCodeClient / VerifyClient / AuthorizeRefreshClient *)
 Definition secret_ok (c : client) (sec : string) : option string :=
   if (match c_auth c with AM_Post => negb (f_post cf) | _ => false end) then Some E_client
+  else if String.eqb sec "" then Some E_client          (* an empty secret never authenticates *)
   else if String.eqb sec (c_secret c) then None else Some E_client.
 
 (* ---------- authorize / login / callback (same code on both routers) ---------- *)
@@ -604,6 +613,10 @@ Definition step (H : string -> string) (cf : cfg) (r : router) (s : st) (o : op)
   | DropRefresh cl =>
       ({| reqs := reqs s; codes := codes s; rtoks := rtoks s; next := next s; ncode := ncode s;
           norefresh := cl :: norefresh s |}, ODone)
+  | RevokeRT n =>
+      ({| reqs := reqs s; codes := codes s;
+          rtoks := filter (fun x => negb (Nat.eqb (r_id x) n)) (rtoks s);
+          next := next s; ncode := ncode s; norefresh := norefresh s |}, ODone)
   end.
 
 (* ---------- histories ---------- *)
